@@ -1,13 +1,34 @@
 //! AVX2 helpers for FFT64 convolution by-constant kernels.
 
+use core::arch::x86_64::__m256i;
+
+/// Lane-wise `i64::wrapping_mul` on 4×i64: the low 64 bits of each 64×64 product.
+///
+/// AVX2 has no 64-bit multiply; with `x = x_hi·2^32 + x_lo` the product modulo `2^64` is
+/// `a_lo·b_lo + ((a_lo·b_hi + a_hi·b_lo) << 32)`, three `_mm256_mul_epu32` (32×32→64, unsigned).
+/// Two's complement makes the low 64 bits independent of the signedness of the operands.
+///
 /// # Safety
 /// Caller must ensure the CPU supports AVX2.
-/// Assumes all inputs fit in i32 (so i32×i32→i64 is exact).
+#[inline]
+#[target_feature(enable = "avx2")]
+pub(crate) unsafe fn mul_i64_wrapping_avx2(a: __m256i, b: __m256i) -> __m256i {
+    use core::arch::x86_64::{_mm256_add_epi64, _mm256_mul_epu32, _mm256_slli_epi64, _mm256_srli_epi64};
+
+    let a_hi: __m256i = _mm256_srli_epi64::<32>(a);
+    let b_hi: __m256i = _mm256_srli_epi64::<32>(b);
+    let lo_lo: __m256i = _mm256_mul_epu32(a, b);
+    let cross: __m256i = _mm256_add_epi64(_mm256_mul_epu32(a, b_hi), _mm256_mul_epu32(a_hi, b));
+    _mm256_add_epi64(lo_lo, _mm256_slli_epi64::<32>(cross))
+}
+
+/// # Safety
+/// Caller must ensure the CPU supports AVX2.
+/// Products and sums wrap in `i64`, exactly as `i64_convolution_by_const_1coeff_ref`.
 #[target_feature(enable = "avx2")]
 pub unsafe fn i64_convolution_by_const_1coeff_avx(k: usize, dst: &mut [i64; 8], a: &[i64], a_size: usize, b: &[i64]) {
     use core::arch::x86_64::{
-        __m256i, _mm256_add_epi64, _mm256_loadu_si256, _mm256_mul_epi32, _mm256_set1_epi32, _mm256_setzero_si256,
-        _mm256_storeu_si256,
+        _mm256_add_epi64, _mm256_loadu_si256, _mm256_set1_epi64x, _mm256_setzero_si256, _mm256_storeu_si256,
     };
 
     dst.fill(0);
@@ -29,20 +50,20 @@ pub unsafe fn i64_convolution_by_const_1coeff_avx(k: usize, dst: &mut [i64; 8], 
         let mut b_ptr: *const i64 = b.as_ptr().add(j_min);
 
         for _ in 0..(j_max - j_min) {
-            // Broadcast scalar b[j] as i32
-            let br: __m256i = _mm256_set1_epi32(*b_ptr as i32);
+            // Broadcast scalar b[j]
+            let br: __m256i = _mm256_set1_epi64x(*b_ptr);
 
             // ---- lower half: a[0..4) ----
             let a_lo: __m256i = _mm256_loadu_si256(a_ptr as *const __m256i);
 
-            let prod_lo: __m256i = _mm256_mul_epi32(a_lo, br);
+            let prod_lo: __m256i = mul_i64_wrapping_avx2(a_lo, br);
 
             acc_lo = _mm256_add_epi64(acc_lo, prod_lo);
 
             // ---- upper half: a[4..8) ----
             let a_hi: __m256i = _mm256_loadu_si256(a_ptr.add(4) as *const __m256i);
 
-            let prod_hi: __m256i = _mm256_mul_epi32(a_hi, br);
+            let prod_hi: __m256i = mul_i64_wrapping_avx2(a_hi, br);
 
             acc_hi = _mm256_add_epi64(acc_hi, prod_hi);
 
@@ -58,7 +79,7 @@ pub unsafe fn i64_convolution_by_const_1coeff_avx(k: usize, dst: &mut [i64; 8], 
 
 /// # Safety
 /// Caller must ensure the CPU supports AVX2.
-/// Assumes all values in `a` and `b` fit in i32 (so i32×i32→i64 is exact).
+/// Products and sums wrap in `i64`, exactly as `i64_convolution_by_const_2coeffs_ref`.
 #[target_feature(enable = "avx2")]
 pub unsafe fn i64_convolution_by_real_const_2coeffs_avx(
     k: usize,
@@ -68,8 +89,7 @@ pub unsafe fn i64_convolution_by_real_const_2coeffs_avx(
     b: &[i64], // real scalars, stride-1
 ) {
     use core::arch::x86_64::{
-        __m256i, _mm256_add_epi64, _mm256_loadu_si256, _mm256_mul_epi32, _mm256_set1_epi32, _mm256_setzero_si256,
-        _mm256_storeu_si256,
+        _mm256_add_epi64, _mm256_loadu_si256, _mm256_set1_epi64x, _mm256_setzero_si256, _mm256_storeu_si256,
     };
 
     let b_size: usize = b.len();
@@ -107,15 +127,15 @@ pub unsafe fn i64_convolution_by_real_const_2coeffs_avx(
 
             // Contributions to k0 only
             for _ in 0..j0_max - j0_min {
-                // Broadcast b[j] as i32
-                let br: __m256i = _mm256_set1_epi32(*b_ptr as i32);
+                // Broadcast b[j]
+                let br: __m256i = _mm256_set1_epi64x(*b_ptr);
 
                 // Load 4×i64 (low half) and 4×i64 (high half)
                 let a_lo_k0: __m256i = _mm256_loadu_si256(a_k0_ptr as *const __m256i);
                 let a_hi_k0: __m256i = _mm256_loadu_si256(a_k0_ptr.add(4) as *const __m256i);
 
-                acc_lo_k0 = _mm256_add_epi64(acc_lo_k0, _mm256_mul_epi32(a_lo_k0, br));
-                acc_hi_k0 = _mm256_add_epi64(acc_hi_k0, _mm256_mul_epi32(a_hi_k0, br));
+                acc_lo_k0 = _mm256_add_epi64(acc_lo_k0, mul_i64_wrapping_avx2(a_lo_k0, br));
+                acc_hi_k0 = _mm256_add_epi64(acc_hi_k0, mul_i64_wrapping_avx2(a_hi_k0, br));
 
                 a_k0_ptr = a_k0_ptr.sub(8);
                 b_ptr = b_ptr.add(1);
@@ -130,13 +150,13 @@ pub unsafe fn i64_convolution_by_real_const_2coeffs_avx(
 
             // Region 1: k0 only, j ∈ [j0_min, j1_min)
             for _ in 0..j1_min - j0_min {
-                let br: __m256i = _mm256_set1_epi32(*b_ptr as i32);
+                let br: __m256i = _mm256_set1_epi64x(*b_ptr);
 
                 let a_k0_lo: __m256i = _mm256_loadu_si256(a_k0_ptr as *const __m256i);
                 let a_k0_hi: __m256i = _mm256_loadu_si256(a_k0_ptr.add(4) as *const __m256i);
 
-                acc_lo_k0 = _mm256_add_epi64(acc_lo_k0, _mm256_mul_epi32(a_k0_lo, br));
-                acc_hi_k0 = _mm256_add_epi64(acc_hi_k0, _mm256_mul_epi32(a_k0_hi, br));
+                acc_lo_k0 = _mm256_add_epi64(acc_lo_k0, mul_i64_wrapping_avx2(a_k0_lo, br));
+                acc_hi_k0 = _mm256_add_epi64(acc_hi_k0, mul_i64_wrapping_avx2(a_k0_hi, br));
 
                 a_k0_ptr = a_k0_ptr.sub(8);
                 b_ptr = b_ptr.add(1);
@@ -145,7 +165,7 @@ pub unsafe fn i64_convolution_by_real_const_2coeffs_avx(
             // Region 2: overlap, contributions to both k0 and k1, j ∈ [j1_min, j0_max)
             // Save one load on b: broadcast once and reuse.
             for _ in 0..j0_max - j1_min {
-                let br: __m256i = _mm256_set1_epi32(*b_ptr as i32);
+                let br: __m256i = _mm256_set1_epi64x(*b_ptr);
 
                 let a_lo_k0: __m256i = _mm256_loadu_si256(a_k0_ptr as *const __m256i);
                 let a_hi_k0: __m256i = _mm256_loadu_si256(a_k0_ptr.add(4) as *const __m256i);
@@ -153,12 +173,12 @@ pub unsafe fn i64_convolution_by_real_const_2coeffs_avx(
                 let a_hi_k1: __m256i = _mm256_loadu_si256(a_k1_ptr.add(4) as *const __m256i);
 
                 // k0
-                acc_lo_k0 = _mm256_add_epi64(acc_lo_k0, _mm256_mul_epi32(a_lo_k0, br));
-                acc_hi_k0 = _mm256_add_epi64(acc_hi_k0, _mm256_mul_epi32(a_hi_k0, br));
+                acc_lo_k0 = _mm256_add_epi64(acc_lo_k0, mul_i64_wrapping_avx2(a_lo_k0, br));
+                acc_hi_k0 = _mm256_add_epi64(acc_hi_k0, mul_i64_wrapping_avx2(a_hi_k0, br));
 
                 // k1
-                acc_lo_k1 = _mm256_add_epi64(acc_lo_k1, _mm256_mul_epi32(a_lo_k1, br));
-                acc_hi_k1 = _mm256_add_epi64(acc_hi_k1, _mm256_mul_epi32(a_hi_k1, br));
+                acc_lo_k1 = _mm256_add_epi64(acc_lo_k1, mul_i64_wrapping_avx2(a_lo_k1, br));
+                acc_hi_k1 = _mm256_add_epi64(acc_hi_k1, mul_i64_wrapping_avx2(a_hi_k1, br));
 
                 a_k0_ptr = a_k0_ptr.sub(8);
                 a_k1_ptr = a_k1_ptr.sub(8);
@@ -167,13 +187,13 @@ pub unsafe fn i64_convolution_by_real_const_2coeffs_avx(
 
             // Region 3: k1 only, j ∈ [j0_max, j1_max)
             for _ in 0..j1_max - j0_max {
-                let br: __m256i = _mm256_set1_epi32(*b_ptr as i32);
+                let br: __m256i = _mm256_set1_epi64x(*b_ptr);
 
                 let a_lo_k1: __m256i = _mm256_loadu_si256(a_k1_ptr as *const __m256i);
                 let a_hi_k1: __m256i = _mm256_loadu_si256(a_k1_ptr.add(4) as *const __m256i);
 
-                acc_lo_k1 = _mm256_add_epi64(acc_lo_k1, _mm256_mul_epi32(a_lo_k1, br));
-                acc_hi_k1 = _mm256_add_epi64(acc_hi_k1, _mm256_mul_epi32(a_hi_k1, br));
+                acc_lo_k1 = _mm256_add_epi64(acc_lo_k1, mul_i64_wrapping_avx2(a_lo_k1, br));
+                acc_hi_k1 = _mm256_add_epi64(acc_hi_k1, mul_i64_wrapping_avx2(a_hi_k1, br));
 
                 a_k1_ptr = a_k1_ptr.sub(8);
                 b_ptr = b_ptr.add(1);
